@@ -276,19 +276,53 @@ def check_tables_empty(snap: dict, ignore_server: bool = False) -> list[dict]:
     return w
 
 
-def check_counters_quiescent(snap: dict, flat_only: bool = True) -> list[dict]:
-    """C15 quiescent belief: a server that manages its workers directly
+def check_counters_quiescent(snap: dict, obs: dict) -> list[dict]:
+    """C15 quiescent belief: a node that manages its workers directly
     believes all of them idle with zero outstanding tasks."""
     w: list[dict] = []
+    # ground truth from the history
+    assigned: dict[str, list[tuple]] = {}
+    crumbs: dict[tuple, list[tuple]] = {}
+    completed: dict[str, int] = {}
+    cancelled: set[tuple] = set()
+    for m in obs.get('msglog', []):
+        kind, brief = m['msg'][0], m['msg'][1]
+        if m['ev'] == 'recv' and m['dst'].startswith('w') and brief:
+            if kind == 'SUBMIT_BATCH':
+                for a, bc in zip(brief['tasks'], brief.get('bcs', [[]] * len(brief['tasks']))):
+                    assigned.setdefault(m['dst'], []).append(tuple(a))
+                    crumbs[tuple(a)] = [tuple(b) for b in bc]
+            elif kind == 'SUBMIT':
+                assigned.setdefault(m['dst'], []).append(tuple(brief['task']))
+                crumbs[tuple(brief['task'])] = [tuple(b) for b in brief.get('bc', [])]
+        if m['ev'] == 'send' and m['src'].startswith('w'):
+            if kind == 'RESULT' or (kind == 'UPDATE' and brief and brief.get('diff') == -1):
+                completed[m['src']] = completed.get(m['src'], 0) + 1
+        if kind == 'CANCEL' and brief and 'addr' in brief:
+            cancelled.add(tuple(brief['addr']))
+    started = {tuple(x[4]) for x in obs.get('exec_starts', []) if x[4]}
+    ended_tags = {x[0] for x in obs.get('exec_log', []) if x[2] == 'end'}
     for name, srv in snap.get('servers', {}).items():
         emps = srv['employees']
         if not emps or any(e['is_manager'] for e in emps):
             continue
         for e in emps:
             if e['num_tasks'] != 0 or e['idle'] != 1:
-                w.append({'kind': 'belief:stale_at_quiescence', 'node': name, 'employee': e['id'],
-                          'num_tasks': e['num_tasks'], 'idle': e['idle'],
-                          'sign': 'surplus' if e['num_tasks'] > 0 else ('deficit' if e['num_tasks'] < 0 else 'idle_only')})
+                wn = 'w%d' % e['id']
+                a = assigned.get(wn, [])
+                unfinished = len(a) - completed.get(wn, 0)
+                # tasks delivered to this worker that were dropped because
+                # they (or an ancestor) were cancelled
+                dropped = [t for t in a if (t in cancelled or any(b in cancelled for b in crumbs.get(t, [])))]
+                w.append({
+                    'kind': 'belief:stale_at_quiescence', 'node': name, 'employee': e['id'],
+                    'num_tasks': e['num_tasks'], 'idle': e['idle'],
+                    'sign': 'surplus' if e['num_tasks'] > 0 else ('deficit' if e['num_tasks'] < 0 else 'zero'),
+                    'idle_exact': e['idle'] == 1,
+                    'surplus_equals_unfinished': e['num_tasks'] == unfinished,
+                    'unfinished_explained_by_cancel': unfinished <= len(dropped),
+                    'cancels_in_run': bool(cancelled),
+                })
         if srv['num_idle_workers'] != srv['total_workers']:
             w.append({'kind': 'belief:aggregate_idle_wrong', 'node': name, 'idle': srv['num_idle_workers'], 'total': srv['total_workers']})
     return w
